@@ -736,6 +736,24 @@ func rulesC19(c *Ctx) {
 			}
 		}
 		c.Pin("errors wrapping both a peer error and ErrRejected", n, 1)
+		// the peer's error is never flattened to text: wherever Response.Error is an operand of fmt.Errorf it is under %w
+		for _, f := range c.funcsWithLits(pM) {
+			for _, call := range f.AllCalls(f.Body, false) {
+				fn := f.Callee(call)
+				if fn == nil || fn.FullName() != "fmt.Errorf" {
+					continue
+				}
+				wrapped := map[ast.Expr]bool{}
+				for _, w := range f.ErrorfWraps(call) {
+					wrapped[w] = true
+				}
+				for _, a := range call.Args[1:] {
+					if f.IsField(a, respErr) {
+						c.Check(wrapped[a], "peer-error-wrapped:"+f.Name(), f, call, "the peer's JSON-RPC error is an operand of %%w (with %%v the caller's errors.As no longer finds it, and code, message and data are lost)")
+					}
+				}
+			}
+		}
 		// one decoder per connection
 		nio := c.Fn(pM, "", "newIOConn")
 		nd := c.Std("encoding/json", "", "NewDecoder")
@@ -773,6 +791,8 @@ func rulesC19(c *Ctx) {
 		}
 		c.Pin("json.NewDecoder sites in newIOConn", m, 1)
 	})
+
+	c.Import("R-C19-10", "stored events are replayed byte for byte: what the in-memory store hands to a resuming stream is a copy taken under its lock, not a view of a backing array that eviction overwrites", "C20", "R-C20-3", func(k string) bool { return strings.HasPrefix(k, "After:copy") })
 
 	c.Rule("R-C19-7", "hand-written conversions between two protocol struct types copy every field the two types share: a composite literal S2{F: x.F, …} built from a value x of another struct type S1 names all fields common to S1 and S2 (custom MarshalJSON/UnmarshalJSON methods and the helpers they call)", func() {
 		structOf := func(t types.Type) (*types.Named, *types.Struct) {
